@@ -2,6 +2,7 @@
 From Coq Require Import ZArith NArith QArith List.
 Import ListNotations.
 From AV Require Import model.Syntax model.Eval spec.Arith proofs.EvalExact.
+From AV Require model.Run proofs.ParseChains proofs.ExprEval proofs.LexExpr proofs.QueryExpr.
 Open Scope Z_scope.
 
 (* [shape t e] (proofs/EvalExact.v) reads a syntax tree as a numeric expression: number leaves denote what the number
@@ -21,6 +22,25 @@ Theorem C01_undefined_is_error : forall debug facts describe fuel t e d,
   shape t e -> (asize t <= fuel)%nat -> denote e = None ->
   exists s k, fst (eval debug facts describe fuel t d) = Error s k.
 Proof. exact undefined_is_error. Qed.
+
+(* The same at full strength on query strings, with lexer and parser in front of the evaluator (proofs/LexExpr.v, ParseChains.v,
+   ExprEval.v, QueryExpr.v): take ANY expression built from well-formed decimal literals, percentages, parentheses and the
+   operators + - * / ^ ** -- any number of operators, any nesting, blanks wherever the lexer lets a token end ([lexable]: each
+   token spelled as the lexer spells it and followed by a character at which it can end) -- and type its text as a query. The
+   answer is one result: exactly the rational number that exact arithmetic assigns to the expression grouped as the documented
+   grammar prescribes ([sem_expr]: `^` over `* /` over `+ -`, left to right, parenthesised groups on their own), or an error,
+   never a number, where that is undefined. *)
+Theorem C01_query_expression : forall debug describe facts (w0 : ParseChains.blanks) (e : ParseChains.expr) (w1 : ParseChains.blanks),
+  LexExpr.lexable (ParseChains.wst w0 ++ ParseChains.toks_expr e ++ ParseChains.wst w1) ->
+  exists r, Run.query debug describe facts (LexExpr.text_of (ParseChains.wst w0 ++ ParseChains.toks_expr e ++ ParseChains.wst w1)) = ([r], []) /\
+            agrees r (denote (ExprEval.sem_expr e)).
+Proof. exact QueryExpr.query_expression. Qed.
+
+(* non-vacuity of it: the query " 1 - (2+3)*4.5%" is such a text and answers 31/40 *)
+Example C01_query_example : forall debug describe facts,
+  LexExpr.text_of (ParseChains.wst [[32%N]] ++ ParseChains.toks_expr QueryExpr.example_expr ++ ParseChains.wst []) = QueryExpr.example_text /\
+  exists v, Run.query debug describe facts QueryExpr.example_text = ([Ok (v, [])], []) /\ (v == 31 # 40)%Q.
+Proof. exact QueryExpr.example_query. Qed.
 
 (* non-vacuity: the tree the parser builds for "1 - 2 * 3 - 4.5%" has a shape and denotes -5.045 *)
 Example C01_example : exists e, shape example_tree e /\ (match denote e with Some q => (q == (-5045) # 1000)%Q | None => False end).
